@@ -3,7 +3,7 @@ from ..mir import Callee, Resolver, fmt, literals, walk, strip_sites as s
 from . import prune
 from . import helpers
 from .prune import is_call
-from .c05 import content_field_writes, node_of
+from .c05 import content_field_writes, node_of, owner_qname
 
 LEVEL = 'other'
 RULES = {
@@ -38,7 +38,7 @@ def r1(ctx):
     F = ctx.facts
     by = {}
     for w in content_field_writes(F, 'aff'):
-        by.setdefault(w[0].qname, []).append(w)
+        by.setdefault(owner_qname(F, w[0]), []).append(w)
     for q, ws in sorted(by.items()):
         site = '%s#write:AffContent.aff' % q
         if q in ALLOWED_WRITERS:
